@@ -104,7 +104,7 @@ class CheckContext:
         if os.environ.get("VERIF_VERBOSE"):
             from collections import Counter
             print(f"  [prove] {name}: paths={r.paths} vcs={dict(Counter(v.status for v in r.vcs))} "
-                  f"inapplicable={len(r.inapplicable)} err={bool(r.error)} {r.time:.1f}s", file=sys.stderr, flush=True)
+                  f"inapplicable={len(r.inapplicable)} err={bool(r.error)} {r.time:.1f}s (vacuity guard {r.vacuity_time:.1f}s)", file=sys.stderr, flush=True)
             for pid, why in r.inapplicable[:3]:
                 print(f"      inapplicable path{pid}: {why}", file=sys.stderr)
             for v in [v for v in r.vcs if v.status != "proved"][:4]:
